@@ -368,6 +368,12 @@ def table_phase(chk, b, wd, prefix, per_route, tier, seed):
         elif r.violated != "TableAsWithout":
             # negative control: the wrong roll-back designs must be refuted, else the invariant says nothing
             raise vlib.MachineryError("ReplTab.tla: the wrong roll-back design %s is not refuted (%s)" % (name, r.violated))
+    if os.environ.get("VERIF_C13_CORRUPT") and sess:
+        # self-test of the binding: one output atom of one exported session is changed; the replay must reject that session
+        for it in sess[len(sess) // 2][1]["hist"]:
+            if it["ok"] and it["o"] and isinstance(it["o"][0], int):
+                it["o"][0] += 1
+                break
     recs, classes = [], chk.extra.setdefault("table_rejected_steps_by_overlap", {})
     for n, (name, x) in enumerate(sess):
         verbose = (n % 6 == 5)
@@ -387,6 +393,10 @@ def table_phase(chk, b, wd, prefix, per_route, tier, seed):
         chk.sample({"table_session": r0["id"], "input": r0["text"][-1200:], "specified_projection": [list(t) for t in r0["exp"]][-12:]})
 
 
+READER_CAUSES = ("comment-must-not-be-read-as-code", "comment-with-code-characters", "escaped-newline-outside-literal",
+                 "brace-definition-closed-on-indented-line")
+
+
 def reader_phase(chk, b, wd, prefix, per_route, tier, seed):
     """How the loop groups its input lines into steps (spec/ReplReader.tla)."""
     d = vlib.scratch("c13rd")
@@ -400,12 +410,22 @@ def reader_phase(chk, b, wd, prefix, per_route, tier, seed):
     sess = [json.loads(l[6:]) for l in r.printed if isinstance(l, str) and l.startswith("RSESS ")]
     if not sess:
         raise vlib.MachineryError("ReplReader.tla exported no session")
+    if os.environ.get("VERIF_C13_CORRUPT"):
+        # self-test of the binding: in one exported session the expectation of one form is changed from `prints' to `rejected'
+        x = sorted(sess, key=lambda x: x["id"])[0]
+        for e in x["exps"][1:]:
+            if e["k"] == "print":
+                e["k"] = "rej"
+                break
     recs, lrecs = [], []
     nitems = 0
     for x in sorted(sess, key=lambda x: x["id"]):
         text, exp, npre, name = replsess.render_reader(x)
         nitems += len(x["items"])
-        recs.append({"id": name, "text": text, "exp": exp, "shapes": sorted(x["tags"]),
+        # a packed session is one that the known defects of the reader do not touch (the three recorded findings show in
+        # single-item sessions only): its violations are never excused by them
+        shapes = sorted(t for t in x["tags"] if not (x["packed"] and t in READER_CAUSES))
+        recs.append({"id": name, "text": text, "exp": exp, "shapes": shapes,
                      "label": "loop reader" + (" packed" if x["packed"] else " single"), "key": {"family": "reader"},
                      "nontrivial": True})
         # the transcription of scanIsContinued against the real function on the lines of the session proper (drift only):
